@@ -23,3 +23,10 @@ CLAIMED['C01'] = dict(
     technique='Lean 4 refinement theorem: tensor-level model T (mega-channel tables, masks, gather indices) = declarative HistFactory rate formula D, for every accepted spec, interpolation setting and parameter vector; differential correspondence T↔pyhf and D↔pyhf',
     text='Proof: C01_expected_eq_formula shows, for every specification accepted by the modelled construction path (plus four decidable hypotheses the code does not check, each evaluated on every generated spec), that the expected rates computed the way pyhf computes them equal per channel and bin Σ_samples (Π declared factors)·(nominal + Σ declared shifts) with parameters read through the slice of the named parameter set, channels concatenated in configuration order; companion theorems give the per-sample output, zero contribution of absent samples, neutrality of undeclared modifiers and dependence of each factor on its named parameter only. The structural half (C01_blocks) holds for any number type. The model is tied to the code on random specs × parameter points in every interpolation regime × clipping × 4 backends × 2 precisions; an independent loop evaluation of the formula from the raw spec is the failing-input oracle.',
     note=TB + 'tensor libraries (einsum/where/gather/concatenate) modelled as list operations; floating point absorbed by rtol 1e-11 (measured 5e-16); clip_sample_data>0 with absent samples is the recorded finding C01/clip-absent-sample (excluded from the theorem by hypothesis clipSampleNonPos).')
+for e in ENGINES:
+    e['serves_properties'] = ['C01', 'C02', 'C03']
+CLAIMED['C02'] = dict(
+    engine='lean-model', design_ref='DESIGN.md §4 C02',
+    technique='Lean 4 theorem: the code path\'s list of log-density terms (viewer split, grouping by constraint type, gather) is a permutation of the HistFactory template term list, hence equal sums over ℝ; differential correspondence of both term lists against pyhf.logpdf',
+    text='Proof: C02_logpdf_eq_template shows for every accepted spec, parameter vector and dataset (arbitrary main and auxiliary data) that Model.logpdf as computed (split by the [main,aux] viewer, Poisson terms per bin on the rates of C01, split of the auxiliary data by the [normal,poisson] viewer paired with gathered parameters) equals Σ_b lpois(d_b|ν_b) + exactly one constraint term per constrained parameter component at the position the configuration assigns (C02_aux_partition: positions are 0…naux−1 once each), with unit widths when no widths are configured, verbatim override widths/factors, rate γ·τ with τ=(nom/unc)² for shapesys (C02_tau_shapesys), and main+constraint=full. lpois/lnorm are abstract (C04). Tie: pyhf logpdf/mainlogpdf/constraint_logpdf/pdf/expected_auxdata/auxdata(_order) vs both model term lists on random specs with overrides and independently drawn auxiliary data, 4 backends × 2 precisions; by-name reassembly from the raw spec is the failing-input oracle.',
+    note=TB + 'scipy xlogy/gammaln/normal formula applied by the harness to the model\'s (datum, rate|mean, width) triples; expected_auxdata stitch via argsort is tied by correspondence only (no theorem yet); staterror width formula modelled (staterrorSigmas) and compared, theorem pending.')
